@@ -111,5 +111,6 @@ func TakeRuntimeContext() *RuntimeContext {
 }
 
 func ReleaseRuntimeContext(ctx *RuntimeContext) {
+	VerifRelease(ctx)
 	runtimeContextPool.Put(ctx)
 }
